@@ -170,6 +170,10 @@ def producer_cases():
         for kind in ('plain', 'params', 'signed-digest', 'signed-hmac', 'siginfo-only'):
             for val in LEGACY_TOKENS:
                 yield {'fe': 'legacy', 'kind': kind, 'digest': 'ok', 'validator': val, 'vlat': 0, 'app_validator': when}
+    for fe, toks in (('v2', ['PASS', 'FAIL', 'none']), ('legacy', ['True', 'False', 'none'])):
+        for kind in ('plain', 'params', 'signed-digest', 'signed-hmac'):
+            for val in toks:
+                yield {'fe': fe, 'kind': kind, 'digest': 'ok', 'validator': val, 'vlat': 0, 'attach': 'route-running'}
     for fe, acc_tok in (('v2', 'PASS'), ('legacy', 'True')):
         for kind in ('params', 'signed-digest'):
             for mid in ('more-specific', 'more-specific-novalidator', 'replaced'):
@@ -223,7 +227,14 @@ def run_producer(case):
         when = case.get('app_validator')
         if when == 'before':
             app.int_validator = validator
-        if fe == 'v2':
+        if case.get('attach') == 'route-running':
+            # the route is declared through the decorator while the application is already connected
+            if fe == 'v2':
+                app.route('/p', validator)(lambda name, ap, reply, ctx: log.append(('handler', loop.us)))
+            else:
+                app.route('/p', validator)(lambda name, param, ap: log.append(('handler', loop.us)))
+            loop.drain()
+        elif fe == 'v2':
             app.attach_handler('/p', lambda name, ap, reply, ctx: log.append(('handler', loop.us)), validator)
         else:
             app.set_interest_filter('/p', lambda name, param, ap: log.append(('handler', loop.us)), None if when else validator)
